@@ -365,6 +365,16 @@ class Driver {
           return false;
         }
       }
+      if constexpr (kChain && O::has_vine_update && !kPosIdx) {
+        // known finding (same as C06-chain-remove-last-largest-id): Chain_matrix::remove_last with vine updates starts
+        // its search for the largest identifier at (identifier 0, column 0); when the only cell left has identifier
+        // 0 but is not stored at index 0 (the index counter is never decremented with vine updates) it dereferences
+        // end().
+        if (cells.size() == 1 && ids[0] == 0 && insertions >= 2 && known("chain-vine-remove-last-id0")) {
+          hit_excluded("chain-vine-remove-last-id0");
+          return false;
+        }
+      }
       ctx.desc << "  remove_last (position " << cells.size() - 1 << ", id " << ids.back() << ")\n";
       trace();
       m->remove_last();
